@@ -24,13 +24,14 @@ task step inside a section; one holder / hand-over to exactly one waiter / no wa
 import contextlib
 import io
 import itertools
+import os
 import sys
 import threading as _rt
 import types
 
 from hypothesis import strategies as st
 
-from ..runner import Outcome, Enum, Hyp, HarnessError, exc_key, exc_is_from_harness
+from ..runner import Outcome, Enum, Hyp, HarnessError, exc_key, exc_is_from_harness, innermost_frames, REPO_ROOT
 from ..sim import detsched as D
 
 ID = "C07"
@@ -228,6 +229,10 @@ def setup():
 
 
 # --------------------------------------------------------------------------- observation state
+
+class _Bail(Exception):
+  """Raised on purpose by the body of a synchronized() section in scenario c."""
+
 
 class _Obs(object):
   def __init__(self):
@@ -513,6 +518,7 @@ def _scn_c(p, ds, obs, m):
   done = [0] * len(tasks)
   stepcount = [0]
   sections = [0]
+  raised = [0]
 
   def tgen(task):
     i = task._h - 1
@@ -537,14 +543,35 @@ def _scn_c(p, ds, obs, m):
       obs.fail("task-ran-inside-section", "scenario c: task %r is in the middle of a step while a foreign thread is inside "
                "scheduler.synchronized() (%s)" % (in_step[0], where), scn="c")
 
-  def nest(s, d):
+  def spec(sec):
+    """a section is an int (nesting depth) or [depth, kind, catch]: the innermost body raises; kind "in": the exception
+    is caught inside the still-open enclosing section number `catch` (0 = outermost) of the same thread, "out": caught
+    outside all sections, "thread": it propagates out of the thread function (the thread ends)."""
+    if isinstance(sec, int):
+      return sec, None, None
+    depth, kind, catch = int(sec[0]), sec[1], int(sec[2])
+    if kind == "in":
+      depth = max(depth, 2)
+      catch = min(max(catch, 0), depth - 2)
+    return depth, kind, catch
+
+  def inner(s, k, depth, kind, catch):
     ds.switch_point("section.in", True)
-    check_inside("depth %d" % d)
-    if d > 0:
-      with s.synchronized():
-        nest(s, d - 1)
+    check_inside("level %d" % k)
+    if k < depth - 1:
+      try:
+        with s.synchronized():
+          inner(s, k + 1, depth, kind, catch)
+      except _Bail:
+        if not (kind == "in" and catch == k):
+          raise
+        raised[0] += 1
       ds.switch_point("section.after-inner-exit", True)
-      check_inside("after inner exit")
+      check_inside("after inner exit at level %d" % k)
+      ds.switch_point("section.after-inner-exit-2", True)
+      check_inside("after inner exit at level %d" % k)
+    elif kind:
+      raise _Bail()
 
   def before(s):
     for i in range(len(tasks)):
@@ -553,19 +580,26 @@ def _scn_c(p, ds, obs, m):
   def body(i):
     def run():
       s = obs.s
-      for depth in threads[i]:
-        with s.synchronized():
-          inside[0] += 1
-          try:
-            check_inside("on entry")
-            nest(s, depth - 1)
-          finally:
-            inside[0] -= 1
+      for sec in threads[i]:
+        depth, kind, catch = spec(sec)
+        try:
+          with s.synchronized():
+            inside[0] += 1
+            try:
+              check_inside("on entry")
+              inner(s, 0, depth, kind, catch)
+            finally:
+              inside[0] -= 1
+        except _Bail:
+          if kind == "thread":
+            sections[0] += 1
+            raise
+          raised[0] += 1
         sections[0] += 1
     return run
 
   def snap():
-    return {"done": list(done), "steps": stepcount[0], "sections": sections[0]}
+    return {"done": list(done), "steps": stepcount[0], "sections": sections[0], "raised": raised[0]}
 
   def judge(out, final):
     q = obs.q
@@ -856,8 +890,17 @@ def _execute(case):
   if fin is None:
     fin = snap()
 
+  def from_harness(e):
+    # an error raised by a shimmed primitive (e.g. "release unlocked lock") on behalf of the POX code that called it is POX's
+    if isinstance(e, HarnessError):
+      return True
+    frames = [f for f in innermost_frames(e) if not f[0].endswith(os.sep + "detsched.py")]
+    if frames and frames[-1][0].startswith(REPO_ROOT + os.sep):
+      return False
+    return exc_is_from_harness(e)
+
   def triage(e, clause, who):
-    if isinstance(e, HarnessError) or exc_is_from_harness(e):
+    if from_harness(e):
       raise HarnessError("C07: harness exception on %s: %r" % (who, e)) from e
     out.violations.append({"key": exc_key(e, clause=clause, scn=scn), "msg": "%s: %r" % (who, e)})
   wedged = any(v[0] == "wakeup-lost-in-pinger" for v in obs.viol)   # then the shutdown cannot complete either
@@ -875,6 +918,8 @@ def _execute(case):
   if res.deadlock is None and res.stalled is None:
     judge(out, fin)
   for name, e in res.thread_errors:
+    if isinstance(e, _Bail):
+      continue
     triage(e, "thread-exception", "thread %s" % name)
   for e in obs.task_excs:
     triage(e, "task-exception", "a task was de-scheduled by Scheduler.cycle because it raised")
@@ -897,6 +942,8 @@ def _execute(case):
     out.label("pre@" + d["site"].split(":")[0])
   if m.missing:
     out.label("window-pattern-missing")
+  if scn == "c" and isinstance(fin, dict) and fin.get("raised"):
+    out.label("c:section-raised")
   if scn == "d":
     stt = fin["stats"] if isinstance(fin, dict) else {}
     out.nontrivial = stt.get("handover", 0) > 0
@@ -927,6 +974,8 @@ def _small_instances():
     ("b", {"wakers": [1, 1], "inthread": 0, "z": 1, "wait": "S"}),
     ("a", {"threads": [["cl"]], "tail": 2}),
     ("c", {"tasks": [3], "threads": [[1], [2]]}),
+    ("c", {"tasks": [3], "threads": [[[2, "in", 0], 1]]}),
+    ("c", {"tasks": [2], "threads": [[[2, "out", 0], 1], [[1, "thread", 0]]]}),
   ]
 
 
@@ -1086,8 +1135,13 @@ def _strategy(tier):
                                 "tail": st.sampled_from([0, 0, 1, 2])})
     pb = st.fixed_dictionaries({"wakers": st.lists(st.integers(1, 3), min_size=1, max_size=3), "inthread": st.integers(0, 2),
                                 "z": st.sampled_from([0, 1, 1, 2]), "wait": st.sampled_from(["F", "S"])})
+    sec = st.one_of(st.integers(1, 3), st.integers(1, 3),
+                    st.tuples(st.integers(2, 3), st.just("in"), st.integers(0, 1)).map(list),
+                    st.tuples(st.integers(1, 3), st.just("out"), st.just(0)).map(list))
+    last = st.one_of(st.just([]), st.just([]), st.tuples(st.integers(1, 2), st.just("thread"), st.just(0)).map(lambda t: [list(t)]))
+    secs = st.tuples(st.lists(sec, min_size=1, max_size=3), last).map(lambda t: t[0] + t[1])
     pc = st.fixed_dictionaries({"tasks": st.lists(st.integers(1, 5), min_size=1, max_size=3),
-                                "threads": st.lists(st.lists(st.integers(1, 3), min_size=1, max_size=2), min_size=1, max_size=3)})
+                                "threads": st.lists(secs, min_size=1, max_size=3)})
     dop = st.one_of(st.tuples(st.sampled_from(["a", "a", "t", "r", "r", "A", "R", "x"]), st.integers(0, 1)).map(list),
                     st.just(["y"]), st.tuples(st.just("s"), st.integers(1, 4)).map(list))
     pd = st.fixed_dictionaries({"locks": st.integers(1, 2), "init": st.lists(st.sampled_from([False, False, True]), min_size=2, max_size=2),
